@@ -94,6 +94,37 @@ pub fn c04(cfg: &Cfg) -> i32 {
 }
 
 // ---------------------------------------------------------------------------------------------
+/// One sparse setup walk (see c09): `order` = 32 strength codes, questions only before the placements in `ask`.
+pub fn sparse_setup_walk(order: &[u8], ask: &[usize], k: u64, sink: &mut Sink) {
+    let t = tables();
+    let mut g = GameState::initial();
+    let mut model = SetupModel::new();
+    for (i, st) in order.iter().enumerate() {
+        if ask.contains(&i) {
+            sink.count("sparse_setup_walk_questions");
+            match guard("valid_actions", || (codes_of(&g.valid_actions()), codes_of(&g.valid_actions_no_rep()))) {
+                Ok((a, b)) => {
+                    let exp = model.offered();
+                    if ActSet::from_codes(&a) != exp || ActSet::from_codes(&b) != exp {
+                        let sig = format!("C09|sparse|{}|{}", k, i);
+                        let all: String = order.iter().map(|x| LETTERS[*x as usize]).collect();
+                        sink.violate("C09", "offered_placements_ne_remaining_complement", sig, format!("sparse walk over the placements {} (no question in between, questions only before placements {:?}): before placement {} offered={} rule-only={} expected={}", all, ask, i, ActSet::from_codes(&a).text(), ActSet::from_codes(&b).text(), exp.text()), json!({"kind": "c09_sparse", "order": all, "questions_before": ask}));
+                    }
+                }
+                Err(p) => {
+                    sink.engine_panics += 1;
+                    *sink.panic_sites.entry(format!("{} @ {}", p.api, p.site)).or_insert(0) += 1;
+                }
+            }
+        }
+        g = match guard("take_action", || g.take_action(&Action::Place(t.piece[*st as usize]))) {
+            Ok(x) => x,
+            Err(_) => break,
+        };
+        model.place(*st);
+    }
+}
+
 pub fn c09(cfg: &Cfg) -> i32 {
     let sink = run_parallel(cfg, |w, sink| {
         let mut mon = C09::default();
@@ -142,9 +173,33 @@ pub fn c09(cfg: &Cfg) -> i32 {
             }
         }
         play_family(Family::W7, cfg.n(8000, 400_000), cfg.seed, w, 0, &opts, &mut mon, sink);
+        // sparse walks: the same state object line is carried on by placements WITHOUT asking anything in between;
+        // only at a few random prefixes the offered list is asked and compared (whatever a state remembers from an
+        // earlier question, or hands to its successors, is then many placements old)
+        {
+            let t = tables();
+            for k in 0..cfg.n(3000, 100_000) {
+                let mut order: Vec<u8> = vec![];
+                for _ in 0..2 {
+                    let mut side: Vec<u8> = vec![];
+                    for st in 0..6u8 {
+                        for _ in 0..COMPLEMENT[st as usize] {
+                            side.push(st);
+                        }
+                    }
+                    rng.shuffle(&mut side);
+                    order.extend(side);
+                }
+                let mut ask: Vec<usize> = (0..3).map(|_| rng.below(32)).collect();
+                ask.push((ask[0] + 16) % 32); // the same slot of the other side
+                let _ = &t;
+                sparse_setup_walk(&order, &ask, k, sink);
+                sink.count("sparse_setup_walks");
+            }
+        }
         mon.finish(sink);
     });
-    let floors = vec![floor("setup_states_judged", 1_000_000, 50_000_000), floor("setups_completed", 30_000, 1_500_000), floor("gold_count_vectors_seen_of_971", 971, 971), floor("silver_count_vectors_seen_of_971", 971, 971)];
+    let floors = vec![floor("sparse_setup_walks", 30_000, 1_000_000), floor("setup_states_judged", 1_000_000, 50_000_000), floor("setups_completed", 30_000, 1_500_000), floor("gold_count_vectors_seen_of_971", 971, 971), floor("silver_count_vectors_seen_of_971", 971, 971)];
     conclude(cfg, sink, report("setup_states_judged", "W7: scripted placement orders that pass through every one of the 972 per-side count vectors for both colours, plus random placement orders chosen from the engine's own offered lists; every prefix is a state. Offered placements are compared with the remaining complement, every placement with the model's next home square, and the switch to Silver / to the play phase with the statement. distinct_nontrivial = distinct (partial board, number placed).", floors, &["the setup model in harness/src/model.rs states the placement order of the property"]))
 }
 
